@@ -54,6 +54,10 @@ P = [
     ("receiver-shared-by-two-different-method-calls", "F.P.Double() > 2", 'F.RS = "1";', "F.P.Neg() < 0", "F.P = F.Q;"),
     ("receiver-shared-by-two-different-method-calls-mirrored", "F.P.Neg() < 0", "F.P = F.Q;", "F.P.Double() > 2", 'F.R = "2";'),
     ("receiver-shared-by-a-method-call-and-a-member", "F.P.Double() > 2", "F.P = F.Q;", "F.P.V > 1", "F.P = F.Q;"),
+    ("receiver-shared-by-two-different-method-calls-both-rules-move-it", "F.P.Double() > 2", "F.P = F.Q;", "F.P.Neg() < 0", "F.P = F.Q;"),
+    ("receiver-shared-by-a-method-call-and-its-negation", "F.P.Double() > 2", "F.P = F.Q;", "!F.P.IsPos()", "F.P = F.Q;"),
+    ("receiver-behind-a-swapped-pointer-shared-by-two-method-calls", 'F.P.S.ToUpper() == "P"', "F.P = F.Q;", 'F.P.S.ToLower() == "p"', "F.P = F.Q;"),
+    ("receiver-behind-a-swapped-pointer-shared-by-a-call-and-a-member-read", 'F.P.S.ToUpper() == "P"', "F.P = F.Q;", 'F.P.S.Len() + F.P.V > 1', "F.P = F.Q;"),
     ("argument-shared-by-two-different-calls", "F.Lin3(F.I + 1, 0, 0) > 0", "F.I = F.I - 5;", "F.Sum(F.I + 1) > 0", "F.I = F.I - 5;"),
     ("float-constant-beyond-15-significant-digits", "F.X > 0.3", 'F.RS = "1";', "F.X > 0.30000000000000004", 'F.R = "2";'),
     ("float-constant-next-double-after-one", "F.X > 1.0", 'F.RS = "1";', "F.X > 1.0000000000000002", 'F.R = "2";'),
